@@ -105,6 +105,10 @@ type c15Case struct {
 	Ops   []c15Op
 	Obs   []c15Obs
 	Descr []string
+	// twin run (only for runs whose node-local witness flag is ever on): the same configuration on a
+	// node whose flag stays off; first step at which descriptions or observations differ, -1 = none
+	TwinDiv  int
+	TwinNote string
 }
 
 type c15Cfg struct {
@@ -245,6 +249,7 @@ func c15NewWorld(cfg c15Cfg) *c15World {
 	w.rep.InitChain()
 	w.setFlag(false)
 	w.c.Cfg = cfg
+	w.c.TwinDiv = -1
 	w.c.Cap = fmt.Sprint(cfg.Cap)
 	for i := range w.wkeys {
 		w.c.Wits = append(w.c.Wits, 20+i)
@@ -872,16 +877,45 @@ type c15Report struct {
 	Refunds  int            `json:"refunds_observed"`
 	Moved    map[string]int `json:"trackers_final_store"`
 	Distinct int            `json:"distinct_cases"`
+	Twins    int            `json:"twin_runs"`
+	TwinDiv  int            `json:"twin_divergences"`
 	Samples  []string       `json:"samples"`
 	Files    []string       `json:"files"`
 }
 
-func c15RunCfg(cfg c15Cfg) c15Case {
+func c15RunOne(cfg c15Cfg) c15Case {
 	w := c15NewWorld(cfg)
 	defer w.rep.Close()
 	w.run(rand.New(rand.NewSource(cfg.Seed)))
 	w.c.Txs = w.txs
 	return w.c
+}
+
+// c15RunCfg runs the configuration; when the node's witness flag is ever switched on it also runs
+// the twin node whose flag stays off and compares every step (consensus state must not depend on
+// the node-local flag or job store)
+func c15RunCfg(cfg c15Cfg) c15Case {
+	c := c15RunOne(cfg)
+	c.TwinDiv = -1
+	if cfg.FlagFrom >= 0 {
+		tc := cfg
+		tc.FlagFrom = -1
+		t := c15RunOne(tc)
+		n := minInt(len(c.Obs), len(t.Obs))
+		for i := 0; i < n && c.TwinDiv < 0; i++ {
+			a, _ := json.Marshal(c.Obs[i])
+			b, _ := json.Marshal(t.Obs[i])
+			if c.Descr[i] != t.Descr[i] || string(a) != string(b) {
+				c.TwinDiv = i
+				c.TwinNote = fmt.Sprintf("step %d (%s): node with witness flag from block %d observes %s, node with the flag off observes %s", i, c.Descr[i], cfg.FlagFrom, a, b)
+			}
+		}
+		if c.TwinDiv < 0 && len(c.Obs) != len(t.Obs) {
+			c.TwinDiv = n
+			c.TwinNote = "runs have different lengths"
+		}
+	}
+	return c
 }
 
 // a scripted case (replay files, known-finding witnesses): ops are given, inputs recomputed
@@ -1019,6 +1053,12 @@ func c15Main(args []string) int {
 	for _, c := range cases {
 		rep.Cases++
 		rep.Steps += len(c.Ops)
+		if c.Cfg.FlagFrom >= 0 && c.Cfg.Blocks > 0 {
+			rep.Twins++
+			if c.TwinDiv >= 0 {
+				rep.TwinDiv++
+			}
+		}
 		rep.WitHist[fmt.Sprint(len(c.Wits))]++
 		var sb strings.Builder
 		prev := map[int]string{}
